@@ -9,7 +9,13 @@ PROP = {'gen_tables': ['IoFacts'],
          'sizes at the buffer boundary on 2/4/8 goroutines; goroutine-local children in every derivation flavour (With, WithLazy with and '
          'without spare slice capacity, Sugar().WithLazy / With, Named, WithOptions(Fields), Sugar/Desugar round trip) derived concurrently '
          'from ONE shared never-logged template (base, With, WithLazy with spare capacity, Sugar().WithLazy, lazy-on-lazy) × 2/4/8 goroutines, '
-         'siblings re-derived between entries; (2) random programs: 1–8 goroutines × 3–40 (thorough ≤ 400) actions {log, With, derive (any '
+         'siblings re-derived between entries; poison preludes — every goroutine first logs entries whose extra field fails to encode (failing '
+         'reflection incl. nested, failing marshaler, panicking Stringer / error; through Log, Check, Sugar, slog, Core.Write) and then all '
+         'encode at once; one registered-scheme URL opened more than once with a factory returning a fresh recorder per call (two branches '
+         'of one tee, 2–3 separately built loggers, 2–3 loggers from zap.Config.Build) — every recorder must hold exactly its own '
+         'logger/branch; 2–3 loggers whose tees are built from ONE caller-owned core slice with no-op cores at various positions (the slice '
+         'must read the same afterwards); (2) random programs (all of the above mixed in: poison entries 1/25, several loggers 5/12, no-op '
+         'cores 1/4): 1–8 goroutines × 3–40 (thorough ≤ 400) actions {log, With, derive (any '
          'flavour, from the own logger or from the shared template), switch to a shared With-child, Logger.Sync, BufferedWriteSyncer.Sync, clock tick, yield} on tees of 1–3 branches (encoders json/console/json2, '
          'minimum level −1/0/1, buffer 64…1024 and the 256 kB default, sampler in 1/8), message sizes from 0 to 2×buffer, GOMAXPROCS 1–16, '
          'runtime.Gosched inside the sink every 1–3 writes, unsynchronised or field-synchronised recorders; (3) hostile: Sync/tick storms around '
